@@ -32,16 +32,29 @@ class NohBlackBoxEos(ExactSolver):
         def __init__(self, equation_of_state, initial_conditions = {'density': 1, 'velocity': -1, 'pressure': 0, 'symmetry': 2}, **kwargs): # EoS object (as of now) is designed to be object from the eos_library.py file.
             super(NohBlackBoxEos, self).__init__(**kwargs)
             self.eos = equation_of_state
-            self.symmetry = initial_conditions['symmetry']
-            self.initial_conditions =initial_conditions # Maybe refactor this later so users can change initial conditions. For now focus on black box eos interaction.
-            self.residual_funciton = pressure_noh_residual(self.initial_conditions, self.eos)
-            # The state returned ahead of the shock is the state the jump conditions are solved for.
-            self.rho0 = initial_conditions['density']
-            self.u0 = initial_conditions['velocity']
-            self.p0 = initial_conditions['pressure']
 
             if self.geometry not in [1, 2, 3]:
                 raise ValueError("geometry must be 1, 2, or 3")
+
+            # The parameters and initial_conditions describe one initial state: a parameter given
+            # explicitly replaces the corresponding entry, otherwise it takes the entry's value.
+            initial_conditions = dict(initial_conditions)
+            if 'rho0' in kwargs:
+                initial_conditions['density'] = self.rho0
+            else:
+                self.rho0 = initial_conditions['density']
+            if 'u0' in kwargs:
+                initial_conditions['velocity'] = self.u0
+            else:
+                self.u0 = initial_conditions['velocity']
+            if 'geometry' in kwargs:
+                initial_conditions['symmetry'] = self.geometry - 1
+            else:
+                self.geometry = initial_conditions['symmetry'] + 1
+            self.p0 = initial_conditions['pressure']
+            self.symmetry = initial_conditions['symmetry']
+            self.initial_conditions =initial_conditions # Maybe refactor this later so users can change initial conditions. For now focus on black box eos interaction.
+            self.residual_funciton = pressure_noh_residual(self.initial_conditions, self.eos)
 
         def set_new_solver_initial_guess(self, new_initial_guess): # Perhaps put all of these together into one function? Or just leave independent?
               self.initial_guess = new_initial_guess
